@@ -187,6 +187,81 @@ func bceCrossCheck(ctx *lint.Ctx, rep *lint.Report, repo string) (map[string]any
 	return info, missing
 }
 
+// replayNeutral applies the behaviour-preserving variants kept for this property (neutral/<prop>-*) to a
+// scratch copy of the current tree and requires the property's check to stay silent on each. A variant the
+// checks are known not to handle (meta.json "expected_alarms") is listed and skipped.
+func replayNeutral(prop, repo, neutralDir, known string) ([]seedResult, []string) {
+	var out []seedResult
+	var noisy []string
+	ents, err := os.ReadDir(neutralDir)
+	if err != nil {
+		return nil, nil
+	}
+	exe, _ := os.Executable()
+	for _, e := range ents {
+		if !e.IsDir() || !strings.HasPrefix(e.Name(), prop+"-") {
+			continue
+		}
+		patch := filepath.Join(neutralDir, e.Name(), "patch.diff")
+		if _, err := os.Stat(patch); err != nil {
+			continue
+		}
+		res := seedResult{Name: e.Name()}
+		expected := false
+		if b, err := os.ReadFile(filepath.Join(neutralDir, e.Name(), "meta.json")); err == nil {
+			var m struct {
+				Expected []string `json:"expected_alarms"`
+			}
+			_ = json.Unmarshal(b, &m)
+			for _, p := range m.Expected {
+				if p == prop {
+					expected = true
+				}
+			}
+		}
+		if expected {
+			res.Note = "known limitation: this rewrite is reported as undecided (DESIGN.md 8.8); skipped"
+			out = append(out, res)
+			continue
+		}
+		tmp, err := os.MkdirTemp("", "ikelint-neutral-")
+		if err != nil {
+			continue
+		}
+		func() {
+			defer os.RemoveAll(tmp)
+			if err := copyTree(repo, tmp); err != nil {
+				res.Note = "copy failed: " + err.Error()
+				return
+			}
+			ap := exec.Command("git", "apply", "--whitespace=nowarn", patch)
+			ap.Dir = tmp
+			ap.Env = append(os.Environ(), "GIT_CEILING_DIRECTORIES="+filepath.Dir(tmp))
+			if b, err := ap.CombinedOutput(); err != nil {
+				res.Note = "patch does not apply to the current tree: " + firstLine(string(b))
+				return
+			}
+			res.Applies = true
+			ch := exec.Command(exe, "-repo", tmp, "-prop", prop, "-tier", "quick", "-no-evidence", "-known", known)
+			b, _ := ch.CombinedOutput()
+			code := ch.ProcessState.ExitCode()
+			res.Flagged = code != 0
+			if code != 0 {
+				for _, l := range strings.Split(string(b), "\n") {
+					if m := ruleLine.FindStringSubmatch(l); m != nil {
+						res.Rules = append(res.Rules, m[2])
+					}
+				}
+			}
+		}()
+		if res.Applies && res.Flagged {
+			noisy = append(noisy, e.Name())
+		}
+		out = append(out, res)
+	}
+	return out, noisy
+}
+
 func thoroughExtras(prop, repo, seededDir, known string, ctx *lint.Ctx, rep *lint.Report) (problems []string) {
 	res, lost := replaySeeded(prop, repo, seededDir, known)
 	if res == nil {
@@ -198,6 +273,19 @@ func thoroughExtras(prop, repo, seededDir, known string, ctx *lint.Ctx, rep *lin
 	rep.Extra["seeded_variants_replayed"] = gen
 	for _, n := range lost {
 		problems = append(problems, "SENSITIVITY-LOST property="+prop+" seeded variant "+n+" applies to this tree but is no longer reported")
+	}
+	// the tree under analysis is silent (otherwise the run fails anyway): are the behaviour-preserving
+	// variants of this property's own code silent too?
+	nres, noisy := replayNeutral(prop, repo, filepath.Join(filepath.Dir(seededDir), "neutral"), known)
+	if nres == nil {
+		nres = []seedResult{}
+	}
+	var ngen []any
+	nb, _ := json.Marshal(nres)
+	_ = json.Unmarshal(nb, &ngen)
+	rep.Extra["neutral_variants_replayed"] = ngen
+	for _, n := range noisy {
+		problems = append(problems, "FALSE-ALARM property="+prop+" behaviour-preserving variant "+n+" is reported")
 	}
 	if prop == "C02" || prop == "C04" || prop == "C10" {
 		info, missing := bceCrossCheck(ctx, rep, repo)
